@@ -127,7 +127,7 @@ seeded('C04', 'stop() fires STOPPING before its guard', 'R4.1',
        [('simulator', "        if self.is_stopping_or_stopped():\n            raise DSOLError(\"cannot stop an already stopped simulator\")\n        self.fire(Simulator.STOPPING_EVENT, None)",
          "        self.fire(Simulator.STOPPING_EVENT, None)\n        if self.is_stopping_or_stopped():\n            raise DSOLError(\"cannot stop an already stopped simulator\")")], key='Simulator.stop')
 seeded('C04', 'initialize clears the event list before validating', 'R4.1',
-       [('simulator', "        if not isinstance(model, ModelInterface):\n            raise DSOLError(f\"model {model} not valid\")\n        if not hasattr(model, '_simulator'):\n            raise DSOLError(f\"model {model} does not have a simulator. \" + \n                \"Did you call super.__init__(...) in the model constructor?\")\n        if not isinstance(replication, ReplicationInterface):\n            raise DSOLError(f\"replication {replication} not valid\")\n        self._eventlist.clear()\n",
+       [('simulator', "        if not isinstance(model, ModelInterface):\n            raise DSOLError(f\"model {model} not valid\")\n        if not hasattr(model, '_simulator'):\n            raise DSOLError(f\"model {model} does not have a simulator. \" + \n                \"Did you call super.__init__(...) in the model constructor?\")\n        if not isinstance(replication, ReplicationInterface):\n            raise DSOLError(f\"replication {replication} not valid\")\n        if not replication.warmup_sim_time >= replication.start_sim_time:\n            raise DSOLError(f\"replication {replication} has its warmup time before its start time\")\n        self._eventlist.clear()\n",
          "        self._eventlist.clear()\n")], key='DEVSSimulator.initialize')
 seeded('C04', '_start_impl: running-guard dropped', 'R4.2',
        [('simulator', "        if self.is_starting_or_running():\n            raise DSOLError(\"cannot start a running simulator\")\n        if self._replication == None:\n            raise DSOLError(\"no replication details\")\n        if not self.is_initialized():",
